@@ -15,6 +15,7 @@ from ..irdb import Module
 from ..engines import e9_safety as e9
 from ..engines import e3_tables as e3
 from ..engines import e2_state as e2
+from ..engines import e13_links as e13
 from ..extract import AnalysisBroken
 from .c12 import RECT
 from ..extract import VERIF
@@ -37,6 +38,11 @@ def run(chk):
     chk.rule("HOT.guard", "AddOutPt / AddLocalMaxPoly / IsFront / GetLastOp / JoinOutrecPaths dereference e.outrec: at each of the 47 call sites the edge "
              "is known to carry output (dominating IsHotEdge test, or made hot by AddLocalMinPoly / StartOpenPath on the path); 9 sites rely on "
              "documented sweep invariants and are allow-listed one by one")
+    chk.rule("LINK.consistent-at-throw", "symbolic execution of every function that writes OutPt::next / OutPt::prev / OutRec::pts over a small "
+             "symbolic heap (all paths; loop-free ring-writing callees inlined; loops cut at head and back edges): at every statement that can "
+             "throw (new, growing container, user callback, allocating callee), at every loop cut and at every exit, each output vertex not provably "
+             "orphaned satisfies n->next->prev == n and n->prev->next == n and has not been deleted; `delete` only of provably orphaned vertices. "
+             "This is what ~ClipperBase -> DisposeAllOutRecs needs to free the rings after a std::bad_alloc")
     chk.rule("T.comparator", "LocMinSorter, IntersectListSort, HorzSegSorter are strict weak orders")
     for cfg in cfgs:
         db = AstDB(cfg)
@@ -46,6 +52,7 @@ def run(chk):
             e9.rule_alloc_noexcept(Module(cfg), db, chk, cfg)
         e3.comparators(db, chk, cfg)
         e9.rule_hot_guard(db, chk, cfg)
+        e13.rule_links(db, chk, cfg)
         # dangling OutPt2 pointers: the lists that point into op_container_ are emptied whenever it is reset
         eng = e2.E2(db, chk, cfg, ["RectClip64", "RectClipLines64"])
         for q in ("RectClip64::Execute", "RectClipLines64::Execute"):
@@ -60,14 +67,18 @@ def run(chk):
     chk.floor("ALLOC.noexcept", 15)
     chk.floor("INT64.product", 150 * n)
     chk.floor("HOT.guard", 40 * n)
+    chk.floor("LINK.consistent-at-throw", 60 * n)
     _controls(chk)
     chk.explanation = (
-        "Four clauses of C10 whose truth is visible in the code are decided for all inputs: non-emptiness guards (this is the rule that found "
+        "Clauses of C10 whose truth is visible in the code are decided for all inputs: non-emptiness guards (this is the rule that found "
         "the empty-path crash in ClipperOffset, since repaired), allocation-failure propagation (nothing allocates under noexcept, nothing "
-        "catches), absence of 64-bit coordinate products, validity of the sort comparators. NOT decided: termination (ProcessIntersectList's "
-        "adjacent-node scan), bounds of computed indices, lifetime of OutPt/Active nodes, overflow of sums and differences, destructor safety "
-        "after a mid-operation throw.")
-    chk.assumptions = ["member scratch containers whose size depends on another container (norms after BuildNormals) are outside GUARD.nonempty's scope",
+        "catches), absence of 64-bit coordinate products, validity of the sort comparators, and - for the allocation-failure clause - consistency of the output rings at every "
+        "throw point of every function that re-links them (so that the destructor can free them). NOT decided: termination (ProcessIntersectList's "
+        "adjacent-node scan), bounds of computed indices, lifetime of Active nodes, disjointness of the rings of different OutRecs, overflow of sums and "
+        "differences.")
+    chk.assumptions = ["LINK: distinct access paths (op->prev, op, op->next, op->next->next) denote distinct vertices; the entry pts of an OutRec "
+                       "that the function does not overwrite is not one of the vertices it orphans",
+                       "member scratch containers whose size depends on another container (norms after BuildNormals) are outside GUARD.nonempty's scope",
                        "libstdc++ container operations have the allocation behaviour their IR bodies show"]
 
 
